@@ -321,6 +321,12 @@ def code_history(spec0, items, hist):
 
 
 def run_case(tname, pre, trig):
+    key = ("del", tname, tuple(map(repr, pre)), repr(trig))
+    return guarded(lambda: _run_case(tname, pre, trig), key, (tname[2:], trig[0], trigger_class(trig)),
+                   "history %s" % "; ".join([code_op(e) for e in pre if e[0] != "eval"] + [repr(trig)]))
+
+
+def _run_case(tname, pre, trig):
     tmpl = {t.__name__: t for t in TEMPLATES}[tname]
     kind, spec0, items, _ = tmpl()
     key = ("del", kind, tuple(map(repr, pre)), repr(trig))
@@ -374,6 +380,10 @@ def run_case(tname, pre, trig):
         rec["notes"].append("trigger refused, case dropped: %s -> %s" % (code_op(trig), type(e).__name__))
         return rec
     spec.apply(trig)
+    if trig[0] in ("del_cells", "del_space"):
+        # a ref to the deleted object dangles even if a derived member of the same name appears in its place
+        gone = tuple(trig[1]) + ((trig[2],) if trig[0] == "del_cells" else ())
+        spec._retarget(gone, ("<deleted>",))
     trig_line = code_op(trig, "m")
 
     def handle_script(path, extra):
@@ -531,14 +541,25 @@ def run_case(tname, pre, trig):
 
 
 def worker(job):
-    tname, pre = job
+    tname, pre, lo, hi = job
     tmpl = {t.__name__: t for t in TEMPLATES}[tname]
     _, spec0, items, _ = tmpl()
     sp = spec0.copy()
     for op in pre:
         if op[0] != "eval":
             sp.apply(op)
-    return [run_case(tname, list(pre), t) for t in triggers(sp, items)]
+    return [run_case(tname, list(pre), t) for t in triggers(sp, items)[lo:hi]]
+
+
+def chunked(tname, pre):
+    tmpl = {t.__name__: t for t in TEMPLATES}[tname]
+    _, spec0, items, _ = tmpl()
+    sp = spec0.copy()
+    for op in pre:
+        if op[0] != "eval":
+            sp.apply(op)
+    n = len(triggers(sp, items))
+    return [(tname, pre, lo, lo + 8) for lo in range(0, n, 8)]
 
 
 def run(res, tier, seed):
@@ -560,7 +581,9 @@ def run(res, tier, seed):
         _, spec0, items, preops = t()
         for n in range(0, maxpre + 1):
             for pre in itertools.permutations(preops, n):
-                jobs.append((t.__name__, pre))
+                if tier == "quick" and n == 2 and preops.index(pre[0]) > preops.index(pre[1]):
+                    continue            # quick: unordered pairs only
+                jobs.extend(chunked(t.__name__, pre))
     complete = run_jobs(res, jobs, worker)
     if complete and tier != "quick":
         rj = []
@@ -569,7 +592,7 @@ def run(res, tier, seed):
             for k in range(30):
                 rng = random.Random(seed * 7919 + k)
                 pre = tuple(rng.choice(preops) for _ in range(4))
-                rj.append((t.__name__, pre))
+                rj.extend(chunked(t.__name__, pre))
         complete = run_jobs(res, rj, worker) and complete
     res.exhaustive = bool(complete)
 
